@@ -192,10 +192,15 @@ class C02(Check):
                 if (len(k) + i) % 2 == 0:
                     import pickle as _pk, copy as _cp
                     how = ["pickle-0", "pickle-highest", "deepcopy", "copy"][(len(k) + i) // 2 % 4]
-                    cp = (_pk.loads(_pk.dumps(t, 0)) if how == "pickle-0" else _pk.loads(_pk.dumps(t, _pk.HIGHEST_PROTOCOL)) if how == "pickle-highest"
-                          else _cp.deepcopy(t) if how == "deepcopy" else _cp.copy(t))
-                    out.stats["copied_model_objects"] += 1
-                    m.message("%s (copy made with %s)" % (k, how), k, cp, docs=False)
+                    try:
+                        cp = (_pk.loads(_pk.dumps(t, 0)) if how == "pickle-0" else _pk.loads(_pk.dumps(t, _pk.HIGHEST_PROTOCOL)) if how == "pickle-highest"
+                              else _cp.deepcopy(t) if how == "deepcopy" else _cp.copy(t))
+                    except RecursionError:
+                        cp = None  # structures with many fields cannot be pickled / deep-copied: known finding F20 (reported by C18)
+                        out.stats["copy_hit_recursion_limit_F20"] += 1
+                    if cp is not None:
+                        out.stats["copied_model_objects"] += 1
+                        m.message("%s (copy made with %s)" % (k, how), k, cp, docs=False)
                 # ... and with the constants placed between the fields: the layout only depends on the fields and their order
                 try:
                     mixed, _a2 = rebuild(t, "list", interleave=True)
